@@ -7,6 +7,7 @@ import (
 	"errors"
 	"fmt"
 	"math"
+	"math/big"
 	"math/rand"
 	"strings"
 	"time"
@@ -217,6 +218,29 @@ func Build(v V, env *Env) interface{} {
 		return math.Float32frombits(uint32(v.U))
 	case "dec":
 		return NewDec(v.S)
+	case "dec60":
+		// a decimal in a context of the host's own (60 digits)
+		d, ok := decimal.WithPrecision(60).SetString(v.S)
+		if !ok || d == nil {
+			return NewDec(v.S)
+		}
+		return d
+	case "decraw":
+		// a decimal without any context: mantissa and scale (plain digits with an optional sign and point)
+		t := strings.TrimPrefix(v.S, "-")
+		scale := 0
+		if i := strings.IndexByte(t, '.'); i >= 0 {
+			scale = len(t) - i - 1
+			t = t[:i] + t[i+1:]
+		}
+		m, ok := new(big.Int).SetString(t, 10)
+		if !ok {
+			return NewDec(v.S)
+		}
+		if strings.HasPrefix(v.S, "-") {
+			m.Neg(m)
+		}
+		return new(decimal.Big).SetBigMantScale(m, scale)
 	case "time":
 		return time.Unix(v.I, int64(v.U)).In(loc(v.S))
 	case "list":
